@@ -73,6 +73,10 @@ type Link struct {
 	// owner seals the same object again (to send it to someone else, to write it to a container). Sealing is a
 	// read: the object in the store is still the delegation that the invocation's proof CID names.
 	Reseal int `json:"reseal,omitempty"`
+	// ViaRoot: the delegation is built with delegation.Root (not New), handed the same options - WithSubject(Sub)
+	// among them. Root makes its issuer the subject whatever the options say (documented), so the delegation is about
+	// Iss.
+	ViaRoot bool `json:"via_root,omitempty"`
 }
 
 // ErrUndecodable: a hand-sealed token of the case is refused by the decoder (that is the decoder's job).
@@ -397,6 +401,9 @@ func BuildLinkWith(l Link, prebuilt policy.Policy) (*delegation.Token, cid.Cid, 
 	}
 	permuteOpts(opts, l.OptPerm)
 	tkn, err := delegation.New(Prin(l.Iss).DID, Prin(l.Aud).DID, cmd, p, opts...)
+	if l.ViaRoot {
+		tkn, err = delegation.Root(Prin(l.Iss).DID, Prin(l.Aud).DID, cmd, p, opts...)
+	}
 	if err != nil {
 		return nil, cid.Undef, nil, fmt.Errorf("delegation.New: %w", err)
 	}
@@ -856,6 +863,22 @@ func StmtHolds(s pol.Stmt, data val.V) (holds bool, specified bool) {
 // checked (the hook's, when a hook is used).
 func Eval(c Case) Rules {
 	var r Rules
+	if func() bool {
+		for _, l := range c.Links {
+			if l.ViaRoot {
+				return true
+			}
+		}
+		return false
+	}() {
+		ls := append([]Link{}, c.Links...)
+		for i := range ls {
+			if ls[i].ViaRoot {
+				ls[i].Sub = ls[i].Iss
+			}
+		}
+		c.Links = ls
+	}
 	n := len(c.Links)
 	r.R[1] = n > 0
 	r.R[2] = true
